@@ -112,6 +112,10 @@ type ChanObj struct {
 	Closed bool
 	id     int
 	Opaque bool
+	// thread mode: the channel of a time.Timer; it delivers once some other thread has been
+	// scheduled since the timer was created (time passes only while others run)
+	TimerArmed bool
+	TimerAt    int
 }
 
 type OpaqueV struct {
